@@ -63,7 +63,7 @@ theorem C03_denote_spec_add (st st1 st2 : St) (env : Env) (x y : Expr) (a b : In
     (ha : st2.has a) (hb : st2.has b) :
     ∃ ops', dExpr st env (.add x y) =
       some (⟨st2.chain ++ [st2.val a + st2.val b], ops'⟩, (st2.chain.length : Int)) := by
-  refine ⟨_, ?_⟩
+  refine ⟨st2.ops ++ [((min a b).toNat, (max a b).toNat)], ?_⟩
   simp only [dExpr, hx, hy]
   exact step_ok st2 a b ha hb
 
@@ -72,7 +72,7 @@ theorem C03_denote_spec_double (st st1 : St) (env : Env) (x : Expr) (a : Int)
     (hx : dExpr st env x = some (st1, a)) (ha : st1.has a) :
     ∃ ops', dExpr st env (.double x) =
       some (⟨st1.chain ++ [st1.val a + st1.val a], ops'⟩, (st1.chain.length : Int)) := by
-  refine ⟨_, ?_⟩
+  refine ⟨st1.ops ++ [((min a a).toNat, (max a a).toNat)], ?_⟩
   simp only [dExpr, hx]
   exact step_ok st1 a a ha ha
 
@@ -178,7 +178,7 @@ theorem C03_shift_zero_load :
     load [⟨"a", .add (.operand 0) (.operand 0)⟩, ⟨"b", .add (.operand 0) (.operand 0)⟩,
           ⟨"", .shift (.ident "a") 0⟩] = .error .outputindex ∧
     load [⟨"", .shift (.operand 1) 0⟩] = .error .outputindex := by
-  refine ⟨by decide, by decide, by decide⟩
+  refine ⟨by rfl, by rfl, by rfl⟩
 
 /-- the cross-check of `pass.Compile` never fires on translator output unless the script contains a
     shift by 0 -/
@@ -298,6 +298,6 @@ example :
       ⟨"", .add (.add (.ident "b") (.operand 2)) (.double (.operand 0))⟩]
     load t = .ok ⟨[1, 2, 4, 8, 12, 2, 14], [(0,0), (1,1), (2,2), (2,3), (0,0), (4,5)]⟩ ∧
     denote t = some ⟨[1, 2, 4, 8, 12, 2, 14], [(0,0), (1,1), (2,2), (2,3), (0,0), (4,5)]⟩ := by
-  refine ⟨by decide, by decide⟩
+  refine ⟨by rfl, by rfl⟩
 
 end AC.Props.C03
